@@ -246,12 +246,15 @@ impl<T: TreeKey, E: TreeKey> TreeKey for Result<T, E> {
     }
 
     #[inline]
-    fn traverse_by_key<K, F, G>(mut keys: K, func: F) -> Result<usize, Error<G>>
+    fn traverse_by_key<K, F, G>(mut keys: K, mut func: F) -> Result<usize, Error<G>>
     where
         K: Keys,
         F: FnMut(usize, Option<&'static str>, NonZero<usize>) -> Result<(), G>,
     {
-        Error::increment_result(match keys.next(&RESULT_LOOKUP)? {
+        let index = keys.next(&RESULT_LOOKUP)?;
+        let name = RESULT_LOOKUP.lookup(index)?;
+        func(index, name, RESULT_LOOKUP.len()).map_err(|err| Error::Inner(1, err))?;
+        Error::increment_result(match index {
             0 => T::traverse_by_key(keys, func),
             1 => E::traverse_by_key(keys, func),
             _ => unreachable!(),
@@ -328,12 +331,15 @@ impl<T: TreeKey> TreeKey for Bound<T> {
     }
 
     #[inline]
-    fn traverse_by_key<K, F, G>(mut keys: K, func: F) -> Result<usize, Error<G>>
+    fn traverse_by_key<K, F, G>(mut keys: K, mut func: F) -> Result<usize, Error<G>>
     where
         K: Keys,
         F: FnMut(usize, Option<&'static str>, NonZero<usize>) -> Result<(), G>,
     {
-        Error::increment_result(match keys.next(&BOUND_LOOKUP)? {
+        let index = keys.next(&BOUND_LOOKUP)?;
+        let name = BOUND_LOOKUP.lookup(index)?;
+        func(index, name, BOUND_LOOKUP.len()).map_err(|err| Error::Inner(1, err))?;
+        Error::increment_result(match index {
             0..=1 => T::traverse_by_key(keys, func),
             _ => unreachable!(),
         })
@@ -409,12 +415,15 @@ impl<T: TreeKey> TreeKey for Range<T> {
     }
 
     #[inline]
-    fn traverse_by_key<K, F, G>(mut keys: K, func: F) -> Result<usize, Error<G>>
+    fn traverse_by_key<K, F, G>(mut keys: K, mut func: F) -> Result<usize, Error<G>>
     where
         K: Keys,
         F: FnMut(usize, Option<&'static str>, NonZero<usize>) -> Result<(), G>,
     {
-        Error::increment_result(match keys.next(&RANGE_LOOKUP)? {
+        let index = keys.next(&RANGE_LOOKUP)?;
+        let name = RANGE_LOOKUP.lookup(index)?;
+        func(index, name, RANGE_LOOKUP.len()).map_err(|err| Error::Inner(1, err))?;
+        Error::increment_result(match index {
             0..=1 => T::traverse_by_key(keys, func),
             _ => unreachable!(),
         })
@@ -488,12 +497,15 @@ impl<T: TreeKey> TreeKey for RangeInclusive<T> {
     }
 
     #[inline]
-    fn traverse_by_key<K, F, G>(mut keys: K, func: F) -> Result<usize, Error<G>>
+    fn traverse_by_key<K, F, G>(mut keys: K, mut func: F) -> Result<usize, Error<G>>
     where
         K: Keys,
         F: FnMut(usize, Option<&'static str>, NonZero<usize>) -> Result<(), G>,
     {
-        Error::increment_result(match keys.next(&RANGE_LOOKUP)? {
+        let index = keys.next(&RANGE_LOOKUP)?;
+        let name = RANGE_LOOKUP.lookup(index)?;
+        func(index, name, RANGE_LOOKUP.len()).map_err(|err| Error::Inner(1, err))?;
+        Error::increment_result(match index {
             0..=1 => T::traverse_by_key(keys, func),
             _ => unreachable!(),
         })
@@ -526,12 +538,15 @@ impl<T: TreeKey> TreeKey for RangeFrom<T> {
     }
 
     #[inline]
-    fn traverse_by_key<K, F, G>(mut keys: K, func: F) -> Result<usize, Error<G>>
+    fn traverse_by_key<K, F, G>(mut keys: K, mut func: F) -> Result<usize, Error<G>>
     where
         K: Keys,
         F: FnMut(usize, Option<&'static str>, NonZero<usize>) -> Result<(), G>,
     {
-        Error::increment_result(match keys.next(&RANGE_FROM_LOOKUP)? {
+        let index = keys.next(&RANGE_FROM_LOOKUP)?;
+        let name = RANGE_FROM_LOOKUP.lookup(index)?;
+        func(index, name, RANGE_FROM_LOOKUP.len()).map_err(|err| Error::Inner(1, err))?;
+        Error::increment_result(match index {
             0 => T::traverse_by_key(keys, func),
             _ => unreachable!(),
         })
@@ -603,12 +618,15 @@ impl<T: TreeKey> TreeKey for RangeTo<T> {
     }
 
     #[inline]
-    fn traverse_by_key<K, F, G>(mut keys: K, func: F) -> Result<usize, Error<G>>
+    fn traverse_by_key<K, F, G>(mut keys: K, mut func: F) -> Result<usize, Error<G>>
     where
         K: Keys,
         F: FnMut(usize, Option<&'static str>, NonZero<usize>) -> Result<(), G>,
     {
-        Error::increment_result(match keys.next(&RANGE_TO_LOOKUP)? {
+        let index = keys.next(&RANGE_TO_LOOKUP)?;
+        let name = RANGE_TO_LOOKUP.lookup(index)?;
+        func(index, name, RANGE_TO_LOOKUP.len()).map_err(|err| Error::Inner(1, err))?;
+        Error::increment_result(match index {
             0 => T::traverse_by_key(keys, func),
             _ => unreachable!(),
         })
